@@ -8,8 +8,7 @@ values, exact arithmetic) over an arbitrary linearly ordered field `K`; points l
 `WF lm` = well-formed continuous model: finite coefficients, consistent sizes, every variable declared
 `Real`/`NonNegativeReal` with non-NaN bounds (`±inf` allowed where the type allows it), rows `≤ ≥ =`,
 `min` or `max` — i.e. any mix of free, non-negative and bounded variables in any order, any sign of the
-right-hand sides, zero coefficients anywhere.  `tol` is the tolerance of `math_utils.rs` and is arbitrary
-unless stated otherwise.  Vocabulary (`LinFeasible`, `obj`, `StdFeasible`, `stdObj`): `Proofs/StdSem.lean`;
+right-hand sides, zero coefficients anywhere.  The conversion uses no tolerance (exact sign test).  Vocabulary (`LinFeasible`, `obj`, `StdFeasible`, `stdObj`): `Proofs/StdSem.lean`;
 the maps `image` (`p = max x 0`, `m = max (−x) 0`, slacks = residuals) and `preimage` (`x = p − m`):
 `Proofs/StdMain.lean`.
 -/
@@ -23,44 +22,43 @@ open Rooc StdSem StdMain Standardize
 variable {K : Type} [Field K] [LinearOrder K] [IsStrictOrderedRing K] [FloorRing K]
 
 /-- **total on well-formed models.**  The conversion succeeds. -/
-theorem std_total (tol : Ext K) (lm : LinModel (Ext K)) (hW : WF lm) : ∃ sm, standardize tol lm = .ok sm := by
-  obtain ⟨sm, _, _, _, h, _⟩ := standardize_spec tol lm hW
+theorem std_total (lm : LinModel (Ext K)) (hW : WF lm) : ∃ sm, standardize lm = .ok sm := by
+  obtain ⟨sm, _, _, _, h, _⟩ := standardize_spec lm hW
   exact ⟨sm, h⟩
 
 /-- **fwd.**  Every feasible point of the original has a feasible image in the standard form (free
 variables split into two non-negative parts, slack/surplus = residuals), and the recorded objective
 `±(c·y) + offset` of the image is the original objective. -/
-theorem fwd (tol : Ext K) (lm : LinModel (Ext K)) (hW : WF lm) {sm : StdModel (Ext K)}
-    (hs : standardize tol lm = .ok sm) (x : List K) (hF : LinFeasible lm x) :
+theorem fwd (lm : LinModel (Ext K)) (hW : WF lm) {sm : StdModel (Ext K)}
+    (hs : standardize lm = .ok sm) (x : List K) (hF : LinFeasible lm x) :
     StdFeasible sm (image lm x) ∧ stdObj sm (image lm x) = obj lm x :=
-  StdMain.fwd tol lm hW hs x hF
+  StdMain.fwd lm hW hs x hF
 
 /-- **bwd.**  Every feasible point of the standard form (equalities, all variables `≥ 0`) maps back, by
 `x = p − m`, to a feasible point of the original — rows AND declared bounds — with the same objective
 relation. -/
-theorem bwd (tol : Ext K) (lm : LinModel (Ext K)) (hW : WF lm) {sm : StdModel (Ext K)}
-    (hs : standardize tol lm = .ok sm) (y : List K) (hF : StdFeasible sm y) :
+theorem bwd (lm : LinModel (Ext K)) (hW : WF lm) {sm : StdModel (Ext K)}
+    (hs : standardize lm = .ok sm) (y : List K) (hF : StdFeasible sm y) :
     LinFeasible lm (preimage lm y) ∧ stdObj sm y = obj lm (preimage lm y) :=
-  StdMain.bwd tol lm hW hs y hF
+  StdMain.bwd lm hW hs y hF
 
 /-- **bounds_enforced.**  Variable bounds of the original are enforced by rows of the standard form: at
 every feasible point of the standard form each original variable lies in its declared domain. -/
-theorem bounds_enforced (tol : Ext K) (lm : LinModel (Ext K)) (hW : WF lm) {sm : StdModel (Ext K)}
-    (hs : standardize tol lm = .ok sm) (y : List K) (hF : StdFeasible sm y) (i : Nat) (hi : i < lm.vars.length) :
+theorem bounds_enforced (lm : LinModel (Ext K)) (hW : WF lm) {sm : StdModel (Ext K)}
+    (hs : standardize lm = .ok sm) (y : List K) (hF : StdFeasible sm y) (i : Nat) (hi : i < lm.vars.length) :
     ∃ ty, lookup lm.domain (lm.vars.getD i "") = some ty ∧ InDomain ty ((preimage lm y).getD i 0) :=
-  (StdMain.bwd tol lm hW hs y hF).1.dom i hi
+  (StdMain.bwd lm hW hs y hF).1.dom i hi
 
 /-- **std_shape.**  The result is rectangular (every row and the objective have one coefficient per
-variable), every right-hand side is `≥ −tol`, and `≥ 0` when the sign test is exact (`tol = 0`).
-(Equalities and non-negative variables are what `StdFeasible` means.) -/
-theorem std_shape (t : K) (ht : 0 ≤ t) (lm : LinModel (Ext K)) (hW : WF lm) {sm : StdModel (Ext K)}
-    (hs : standardize (Ext.fin t) lm = .ok sm) :
+variable) and EVERY right-hand side is `≥ 0` — unconditionally, there is no tolerance in the conversion
+any more (`EqualityConstraint::new` tests the sign exactly since /repo 947e0f0).  (Equalities and
+non-negative variables are what `StdFeasible` means.) -/
+theorem std_shape (lm : LinModel (Ext K)) (hW : WF lm) {sm : StdModel (Ext K)} (hs : standardize lm = .ok sm) :
     (∀ r ∈ sm.rows, r.coeffs.length = sm.vars.length) ∧ sm.objective.length = sm.vars.length ∧
-    (∀ r ∈ sm.rows, -t ≤ toK r.rhs) ∧ (t = 0 → ∀ r ∈ sm.rows, 0 ≤ toK r.rhs) :=
-  ⟨(shape _ lm hW hs).1, (shape _ lm hW hs).2, fun r hr => (StdShape.rhs_ge t ht lm hW hs r hr).1,
-   fun h0 r hr => (StdShape.rhs_ge t ht lm hW hs r hr).2 h0⟩
+    (∀ r ∈ sm.rows, 0 ≤ toK r.rhs) :=
+  ⟨(shape lm hW hs).1, (shape lm hW hs).2, StdShape.rhs_nonneg lm hW hs⟩
 
-/-! ### Non-vacuity and the tolerance counterexample (over `ℚ`) -/
+/-! ### Non-vacuity and the regression example (over `ℚ`) -/
 section examples
 
 /-- `max x − y  s.t.  2x + y ≤ 4,  x ≥ 0 with upper bound 3,  y free`. -/
@@ -95,26 +93,20 @@ theorem lm0_feasible : LinFeasible lm0 [1, -2] := by
 /-- the hypotheses of `fwd`/`bwd`/`std_shape` are jointly satisfiable: a well-formed model with a bounded
 non-negative variable BEFORE a free one, a feasible point with a negative free coordinate, a successful
 conversion and a feasible image. -/
-example : ∃ sm, standardize (Ext.fin (1/100000 : ℚ)) lm0 = .ok sm ∧ StdFeasible sm (image lm0 [1, -2]) ∧
+example : ∃ sm, standardize lm0 = .ok sm ∧ StdFeasible sm (image lm0 [1, -2]) ∧
     stdObj sm (image lm0 [1, -2]) = obj lm0 [1, -2] := by
-  obtain ⟨sm, hs⟩ := std_total (Ext.fin (1/100000 : ℚ)) lm0 lm0_wf
-  exact ⟨sm, hs, fwd _ lm0 lm0_wf hs _ lm0_feasible⟩
+  obtain ⟨sm, hs⟩ := std_total lm0 lm0_wf
+  exact ⟨sm, hs, fwd lm0 lm0_wf hs _ lm0_feasible⟩
 
-/-- **`rhs ≥ 0` fails for `tol > 0`**: `EqualityConstraint::new` with tolerance `1e-5` keeps the right-hand
-side `−1/200000` (known finding `C13-rhs-sign-within-tolerance`). -/
-theorem rhs_nonneg_tol_counterexample :
-    (eqNew (Ext.fin (1/100000 : ℚ)) [Ext.fin 2] (Ext.fin (-1/200000))).rhs = Ext.fin (-1/200000) ∧
-    toK (eqNew (Ext.fin (1/100000 : ℚ)) [Ext.fin 2] (Ext.fin (-1/200000))).rhs < 0 := by
-  have h : Tol.flt (Ext.fin (1/100000 : ℚ)) (Ext.fin (-1/200000)) Arith.zero = false := by
-    cases hc : Tol.flt (Ext.fin (1/100000 : ℚ)) (Ext.fin (-1/200000)) Arith.zero with
-    | false => rfl
-    | true =>
-      have := (StdShape.flt_fin (1/100000 : ℚ) (-1/200000)).1 hc
-      exact absurd (by rw [abs_of_neg (by norm_num)]; norm_num : |(-1/200000 : ℚ)| < 1/100000) this.2
-  simp only [eqNew, h, Bool.false_eq_true, if_false, toK]
+/-- regression example for the repaired defect `C13-rhs-sign-within-tolerance` (fixed by /repo 947e0f0):
+a right-hand side `−1/200000`, inside the old tolerance band `(-1e-5, 0)`, is negated. -/
+example : (eqNew [Ext.fin (2 : ℚ)] (Ext.fin (-1/200000))).rhs = Ext.fin (1/200000) ∧
+    (eqNew [Ext.fin (2 : ℚ)] (Ext.fin (-1/200000))).coeffs = [Ext.fin (-2)] := by
+  have h : Arith.lt (Ext.fin (-1/200000 : ℚ) : Ext ℚ) Arith.zero = true := (StdShape.lt_zero_fin _).2 (by norm_num)
+  simp only [eqNew, h, if_true]
   constructor
-  · trivial
-  · norm_num
+  · simp [Arith.neg, Ext.neg, ExactField.neg]; norm_num
+  · simp [Arith.mul, Arith.ofInt, Ext.mul, ExactField.mul, ExactField.ofInt]
 
 end examples
 end Rooc.Props.C13
